@@ -1811,12 +1811,16 @@ def _eval_model(ctx, scratch, spec, stream='model'):
         binner = make_binner(spec.get('binner', 'native'), bgrid, None)
         profiles = m.generate_profiles()
         if any(v is None for v in profiles.values()):
-            # TODO (genuine defect of /repo, reported to the coordinator, NOT judged): a chemistry in which every gas is an
-            # absorber (absorbing fill gas + active trace gases, no inactive gas at all) has inactiveGasMixProfile = None;
-            # generate_profiles() puts that None under 'inactive_mix_profile' and store_dictionary raises
-            # ValueError("Cannot save <class 'NoneType'> type"): the program cannot write its output.  The None entries are
-            # left out so that the rest of the file (spectra, reload) is still judged.
-            ctx.bucket('TODO-finding:no-inactive-gas:Output/Profiles-holds-None:not-judged')
+            # a chemistry in which every gas is an absorber (absorbing fill gas + active trace gases, no inactive gas at all) has
+            # inactiveGasMixProfile = None; generate_profiles() puts that None under 'inactive_mix_profile' and
+            # store_dictionary raises ValueError("Cannot save <class 'NoneType'> type"): the program cannot write its
+            # output.  A genuine defect, recorded as a known finding (known_findings.txt, DESIGN §6: the repair changes the type
+            # of a public property other code tests for None); the None entries are left out so that the rest of the file
+            # (spectra, reload) is still judged.
+            none_keys = sorted(kk for kk, v in profiles.items() if v is None)
+            ctx.violation('output-profiles-hold-None:' + '+'.join(none_keys), 'generate_profiles() holds None entries: '
+                          'store_dictionary(profiles) raises, the program cannot write Output/Profiles', case,
+                          dict(none_entries=none_keys))
             profiles = {kk: v for kk, v in profiles.items() if v is not None}
         spectrum = binner.generate_spectrum_output(res, output_size=size)
         try:
